@@ -1197,6 +1197,109 @@ def rule_r7(facts, rep, rid="C01-R7"):
     rep.floor(rid, "lossy adapters audited", n, 8)
 
 
+# ------------------------------------------------------------------------------------------------------------ R8 trimming in the printers
+
+PRINTERS = ("GraphBlock::to_markdown", "GraphInline::to_markdown", "model::graph::inlines_to_markdown", "model::graph::blocks_to_markdown", "model::graph::blocks_to_markdown_and",
+            "model::graph::blocks_to_markdown_sparce", "model::graph::left_pad_and_prefix", "model::graph::left_pad_and_prefix_num", "NodeIter::to_markdown", "Graph::to_markdown")
+TRIMMERS = {"trim", "trim_start", "trim_end", "trim_matches", "trim_start_matches", "trim_end_matches", "trim_left", "trim_right", "strip_prefix", "strip_suffix",
+            "split_whitespace", "truncate", "replace", "replacen", "trim_ascii", "trim_ascii_start", "trim_ascii_end"}
+
+# audited: (printer fn suffix, method, ordinal) -> (required operand class prefix, reason)
+TRIM_OK = {
+    ("GraphBlock::to_markdown", "trim", 0): ("query:", "`lang.trim().is_empty()`: decides whether a language tag is printed, the value itself is not trimmed"),
+    ("GraphBlock::to_markdown", "trim_matches", 0): ("payload:newline-pattern", "code block body: blank lines at its edges are presentation (the fence supplies them); the pattern is a single '\\n'"),
+    ("GraphBlock::to_markdown", "trim_matches", 1): ("payload:newline-pattern", "code block body: blank lines at its edges are presentation (the fence supplies them); the pattern is a single '\\n'"),
+    ("GraphBlock::to_markdown", "trim", 1): ("formatted-with-visible-prefix", "quote lines are trimmed AFTER the `> ` marker is prepended: only trailing whitespace (and the space of an empty `> ` line) goes"),
+}
+
+
+def _printable(v):
+    return "".join(ch for ch in v if ch.isprintable() and ch != "\u00b7")
+
+
+def _operand_class(c, call):
+    """Rename-robust class of the value a trimming call is applied to."""
+    # consumer: if the trimmed value only feeds a predicate, it is a query
+    ups = _chain(c, call)
+    if ups and ups[0]["name"] in ("is_empty", "len", "eq", "starts_with", "ends_with", "contains", "eq_ignore_ascii_case"):
+        return "query:" + ups[0]["name"]
+    r = call["recv"]
+    while r is not None and r.get("k") in ("addrof", "unary"):
+        r = r["e"]
+    pat = ""
+    if call["args"]:
+        a = call["args"][0]
+        if a.get("k") == "lit":
+            pat = str(a.get("v", ""))
+    if r is not None and r.get("k") == "path" and r.get("res") == "local":
+        b = c.binds.get(r["id"])
+        if b and b[0] == "expr":
+            src = b[1]
+            # closure parameter fed by an upstream `.map(|x| format!(..))` ?
+            if src.get("k") == "mcall" and src["name"] == "map":
+                for a in src["args"]:
+                    if a.get("k") == "closure":
+                        lits = [y for y in fb.walk(a["body"]) if y.get("k") == "lit" and str(y.get("v", "")).startswith(("bs:", "s:"))]
+                        fm = any("format" in (y.get("m") or "") for y in fb.walk(a["body"]))
+                        if fm and lits:
+                            vis = _printable(str(lits[0]["v"]).split(":", 1)[1])
+                            if vis and not vis[0].isspace():
+                                return "formatted-with-visible-prefix:" + vis.strip()
+                            return "formatted-with-blank-prefix"
+            if src.get("k") == "mcall" and src["name"] in ("lines", "split", "split_terminator", "chars", "iter"):
+                return "content-line"
+            if src.get("k") == "mcall" and src["name"] in ("map", "filter", "enumerate"):
+                inner = src
+                while inner.get("k") == "mcall":
+                    if inner["name"] in ("lines", "split"):
+                        return "content-line"
+                    inner = inner["recv"]
+        if b and b[0] == "param":
+            return "payload:param"
+        # match-arm payload binding
+        if c.pos.get(r["id"]):
+            if pat in ("c:\n",):
+                return "payload:newline-pattern"
+            return "payload:" + c.pos[r["id"]]
+    return "other:" + fb.show(r)[:30]
+
+
+def rule_r8(facts, rep, rid="C01-R8"):
+    rep.rule(rid, "whitespace trimming / stripping / replacing inside the text printers is confined to audited sites, each with its audited operand class: a trim applied to a content "
+                  "line before the block marker is prepended (instead of to the marked line) strips the indentation that keeps nested code, sub-lists and continuation paragraphs inside "
+                  "their block")
+    n = 0
+    for nm in PRINTERS:
+        f = facts.fn(nm)
+        rep.saw_fn(f)
+        c = ctx(f)
+        counts = {}
+        for x in fb.walk(f.body):
+            if x.get("k") != "mcall" or x["name"] not in TRIMMERS:
+                continue
+            cal = fb.callee(x) or ""
+            if not cal.startswith(("core::str::", "std::str::", "alloc::str::", "alloc::string::", "std::string::")):
+                continue
+            i = counts.get(x["name"], 0)
+            counts[x["name"]] = i + 1
+            n += 1
+            key = "%s|%s|%d" % (f.def_, x["name"], i)
+            cls = _operand_class(c, x)
+            ent = None
+            for (fs, m_, o_), v in TRIM_OK.items():
+                if f.def_.endswith(fs) and m_ == x["name"] and o_ == i:
+                    ent = v
+            if ent is None:
+                rep.violation(rid, key, "new `.%s(..)` on a %s value in printer %s: trimming/replacing inside the printers changes note content (indentation inside quotes and "
+                              "items, code bodies, words) unless it is one of the audited sites" % (x["name"], cls, nm), loc(f, x))
+            elif not cls.startswith(ent[0]):
+                rep.violation(rid, key, "`.%s(..)` in %s is now applied to a `%s` value; the audited site applies it to `%s` (%s): trimming the content line itself strips the leading "
+                              "indentation that keeps nested blocks inside their quote / item" % (x["name"], nm, cls, ent[0], ent[1]), loc(f, x))
+            else:
+                rep.ok(rid, key, "audited (%s): %s" % (cls, ent[1]), loc(f, x))
+    rep.floor(rid, "trimming sites in the printers", n, 4)
+
+
 def run(facts, rep, tier):
     rule_r1(facts, rep)
     rule_r1b(facts, rep)
@@ -1207,3 +1310,42 @@ def run(facts, rep, tier):
     rule_r5(facts, rep)
     rule_r6(facts, rep)
     rule_r7(facts, rep)
+    rule_r8(facts, rep)
+    # front matter must not be invented either: the per-key metadata cache needs its remove edge (= C04-R3)
+    rep.rule("C01-R6b", "= C04-R3 for the front-matter cache: the single-key update removes Graph.metadata[key] when the new text has no front matter (otherwise formatting re-adds a block the author deleted).")
+    from . import c04
+    sub = _Only(rep, "cache:metadata")
+    c04.rule_r3(facts, sub, "C01-R6b")
+
+
+class _Only:
+    """Forwards only the instances whose key contains a marker."""
+
+    def __init__(self, rep, marker):
+        self.rep = rep
+        self.marker = marker
+        self.stats = rep.stats
+
+    def ok(self, rule, key, detail="", loc=None, nontrivial=True):
+        if self.marker in key:
+            self.rep.ok(rule, key, detail, loc, nontrivial)
+
+    def violation(self, rule, key, detail, loc=None):
+        if self.marker in key:
+            self.rep.violation(rule, key, detail, loc)
+
+    def undecided(self, rule, key, detail, loc=None):
+        if self.marker in key:
+            self.rep.undecided(rule, key, detail, loc)
+
+    def floor(self, *a, **k):
+        pass
+
+    def anchor_missing(self, rule, what):
+        self.rep.anchor_missing(rule, what)
+
+    def saw_fn(self, fn):
+        self.rep.saw_fn(fn)
+
+    def rule(self, rid, text):
+        pass
